@@ -14,7 +14,7 @@ Lemma dense_sites_sanctioned_refuted_proof :
   exists s, In s dense_sites /\ sanctioned s = false /\ product_site s = true.
 Proof.
   exists (mkSite "_compressed/compressed.py" "GCXS._reduce_calc" "np.arange"
-                 "x._compressed_shape[0], dtype=self.indptr.dtype" 1).
+                 "x._compressed_shape[0], dtype=x.indptr.dtype" 1).
   vm_compute. repeat split; auto 200.
 Qed.
 
